@@ -5,7 +5,8 @@ import Tsv.Gen.Brownian
 import Mathlib.Tactic.Ring
 
 namespace C03
-variable {K : Type} [Field K]
+set_option linter.unusedSectionVars false
+variable {K : Type} [Field K] [LinearOrder K]
 
 /-! ### ReverseBrownian -/
 
